@@ -36,8 +36,8 @@ def build(scratch):
 
 
 B = "global table of 2 defined slots (capacity 4), 0-2 other thread contexts, operand stack of 2"
-PUB = ("; the update is PUBLISHED: the world is stopped before any table is touched, every other thread's table is taken away while the update runs and is replaced by the "
-       "updated table afterwards (all threads agree), the own table is restored last and only then is the world resumed")
+PUB = ("; the update is PUBLISHED: the world is stopped before any table is touched, every other thread's table is replaced by the updated table "
+       "after the update (all threads agree) and only then is the world resumed")
 OBS = {
     "global_define_is_published_contract": dict(kind="bounded", bound=B, functions=["VmCore::handle_bind", "SteelThread::with_locked_env"],
         contract="BIND i (define): exactly the popped value is stored in exactly slot i, every other slot keeps its value, ip+1" + PUB),
